@@ -621,6 +621,66 @@ def _span(grp):
     return grp[0].__name__ if len(grp) == 1 else grp[0].__name__ + ".." + grp[-1].__name__
 
 
+def _nested_values():
+    """constructed values whose encoding nests groups two and three levels deep with DIFFERENT context numbers"""
+    dr = B.DateRange(startDate=(124, 1, 1, 1), endDate=(124, 1, 31, 3))
+    se = B.SpecialEvent(period=B.SpecialEventPeriod(calendarEntry=B.CalendarEntry(dateRange=dr)),
+                        listOfTimeValues=[B.TimeValue(time=(8, 0, 0, 0), value=P.Real(1.0))], eventPriority=3)
+    ce = B.CalendarEntry(dateRange=dr)
+    dest = B.Destination(validDays=[1, 1, 1, 1, 1, 1, 1], fromTime=(0, 0, 0, 0), toTime=(23, 59, 59, 99),
+                         recipient=B.Recipient(address=B.DeviceAddress(networkNumber=5, macAddress=b"\x01\x02")),
+                         processIdentifier=7, issueConfirmedNotifications=True, transitions=[1, 1, 1])
+    return [("SpecialEvent", B.SpecialEvent, se), ("CalendarEntry", B.CalendarEntry, ce), ("Destination", B.Destination, dest)]
+
+
+@meta(bounds="a ReadProperty-ACK and a WriteProperty request whose property value (an ANY) holds a constructed value that nests "
+             "groups two and three levels deep with different context numbers - an exception-schedule entry whose period is "
+             "calendarEntry [0] { dateRange [1] { .. } }, a calendar entry with a date range, a notification-class destination "
+             "with a device address as recipient - with a symbolic array index and one of four property numbers: the PDU encodes, "
+             "decodes from its own octets, the value cast out of the ANY encodes to the same octets as the value put in, and the "
+             "re-encoded PDU equals the first",
+      outside="other constructed values inside an ANY (the classes themselves are covered by cls_rt)",
+      stubs=[], assumes=[])
+def any_nested(d):
+    name, K, value = d.pick(_nested_values(), 'value')
+    prop = d.pick([85, 38, 512, 4194303], 'property')      # named, named, unnamed, the largest number
+    idx = d.int(0, 70000, 'array_index')
+    kind = d.pick(["ReadPropertyACK", "WritePropertyRequest"], 'pdu')
+    pdu = getattr(A, kind)(objectIdentifier=('schedule', 1), propertyIdentifier=prop, propertyArrayIndex=idx)
+    pdu.propertyValue = C.Any()
+    pdu.propertyValue.cast_in(value)
+
+    def octets_of(x):
+        o = A.APDU()
+        x.encode(o)
+        return bytes(o.pduData)
+    try:
+        first = octets_of(pdu)
+        back = getattr(A, kind)()
+        src = A.APDU()
+        pdu.encode(src)
+        back.decode(src)
+    except Exception as e:
+        raise Violation("any-nested-refused", value=name, pdu=kind, exc=type(e).__name__, msg=str(e)[:80])
+    if back.propertyArrayIndex != idx:         # (the property number may come back as its name: the re-encoding below compares it)
+        raise Violation("any-nested-fields", value=name, pdu=kind)
+    try:
+        out = back.propertyValue.cast_out(K)
+        t1, t2 = P.TagList(), P.TagList()
+        value.encode(t1)
+        out.encode(t2)
+        d1, d2 = PDUData(), PDUData()
+        t1.encode(d1)
+        t2.encode(d2)
+    except Exception as e:
+        raise Violation("any-nested-cast-out", value=name, pdu=kind, exc=type(e).__name__, msg=str(e)[:80])
+    if bytes(d1.pduData) != bytes(d2.pduData):
+        raise Violation("any-nested-value-differs", value=name, pdu=kind)
+    if octets_of(back) != first:
+        raise Violation("any-nested-reencode-differs", value=name, pdu=kind)
+    d.reach()
+
+
 def instances(tier):
     q = tier == "quick"
     t = "q" if q else "t"
@@ -637,6 +697,7 @@ def instances(tier):
         out.append(Inst(cls_refuse, dict(group=i, tier=t), budget=120 if q else 600, path_timeout=pt,
                         label="%d:%s" % (i, _span(grp))))
     out.append(Inst(lists_rt, dict(tier=t), budget=120 if q else 600, path_timeout=pt))
+    out.append(Inst(any_nested, {}, budget=120))
     out.append(Inst(registries, {}, budget=60))
     out.append(Inst(annexf, {}, budget=60))
     return out
